@@ -482,3 +482,56 @@ package webrtc
 //@ ensures specTypeHasRetransmits(specChannelType(ordered, hasR, hasL)) == hasR && specTypeHasLifeTime(specChannelType(ordered, hasR, hasL)) == hasL
 //@ ensures uint16(uint32(v)) == v
 //@ ensures specValidChannelType(specChannelType(ordered, hasR, hasL))
+
+// ---------------------------------------------------------------- C26 (RFC 4588 unwrapping)
+//@ func (*TrackRemote).PayloadType
+//@ props C26
+//@ requires t != nil
+//@ ensures result == t.payloadType
+//@ modifies nothing
+//@ func (*TrackRemote).SSRC
+//@ props C26
+//@ requires t != nil
+//@ ensures result == t.ssrc
+//@ modifies nothing
+
+// Assumed contracts on dependencies. The repair stream (pion/srtp behind the interceptor
+// chain) delivers the RTX packet bytes ufbyte("rtx", k), k < n, and only packets whose RTP
+// header parsed: the fixed header, the CSRC list and the extension (if the X bit is set) lie
+// inside the packet, and a set padding bit comes with a padding count that fits the payload.
+//@ func (interceptor.RTPReader).Read
+//@ trusted
+//@ ensures err == nil ==> 12 <= ret0 && ret0 <= len(arg0) && ret0 < 65536 && (forall k int :: 0 <= k && k < ret0 ==> arg0[k] == ufbyte("rtx", k))
+//@ ensures err == nil ==> 12 + 4*int(ufbyte("rtx", 0)&15) <= ret0
+//@ ensures err == nil && ufbyte("rtx", 0)&16 != 0 ==> 12 + 4*int(ufbyte("rtx", 0)&15) + 4 + 4*(int(ufbyte("rtx", 12 + 4*int(ufbyte("rtx", 0)&15) + 2))<<8 | int(ufbyte("rtx", 12 + 4*int(ufbyte("rtx", 0)&15) + 3))) <= ret0
+//@ modifies elems(arg0)
+//@ func (interceptor.Attributes).Set
+//@ trusted
+//@ modifies nothing
+//@ func (*sync.Pool).Get
+//@ trusted
+//@ modifies nothing
+//@ func (*sync.Pool).Put
+//@ trusted
+//@ modifies nothing
+
+// The RTX rewrite (loop body of the repair reader up to the send): with
+// X(k) = ufbyte("rtx", k) the received packet, n its length, cc = X(0)&15,
+// hl = 12 + 4cc (+ 4(1+extlen) if X(0)&16): the packet sent on is b[:n-2] with the
+// first byte unchanged, the marker bit kept and the primary payload type, the
+// original sequence number X(hl), X(hl+1) as sequence number, the timestamp
+// unchanged, the primary SSRC, CSRCs and extension unchanged and the payload
+// shifted down over the two OSN bytes; packets with less than two payload bytes are not sent.
+//@ func (*RTPReceiver).maybeStartRepairStreamReader$1
+//@ timeout 45
+//@ props C26
+//@ nosafety
+//@ requires r != nil && remoteTrack != nil && repairInterceptor != nil
+//@ atsend assert ufbyte("rtx", 0)&16 == 0 ==> int(headerLength) == 12 + 4*int(ufbyte("rtx", 0)&15)
+//@ atsend assert ufbyte("rtx", 0)&16 != 0 ==> int(headerLength) == 12 + 4*int(ufbyte("rtx", 0)&15) + 4 + 4*(int(ufbyte("rtx", 12 + 4*int(ufbyte("rtx", 0)&15) + 2))<<8 | int(ufbyte("rtx", 12 + 4*int(ufbyte("rtx", 0)&15) + 3)))
+//@ atsend assert i - int(headerLength) >= 2 && len(sent.pkt) == i - 2 && sameptr(sent.pkt, b)
+//@ atsend assert b[0] == ufbyte("rtx", 0) && b[1] == (ufbyte("rtx", 1)&0x80)|uint8(remoteTrack.payloadType) && b[2] == ufbyte("rtx", int(headerLength)) && b[3] == ufbyte("rtx", int(headerLength)+1)
+//@ atsend assert b[4] == ufbyte("rtx", 4) && b[5] == ufbyte("rtx", 5) && b[6] == ufbyte("rtx", 6) && b[7] == ufbyte("rtx", 7)
+//@ atsend assert b[8] == uint8(remoteTrack.ssrc>>24) && b[9] == uint8(remoteTrack.ssrc>>16) && b[10] == uint8(remoteTrack.ssrc>>8) && b[11] == uint8(remoteTrack.ssrc)
+//@ atsend assert forall k int :: 12 <= k && k < int(headerLength) ==> b[k] == ufbyte("rtx", k)
+//@ atsend assert forall k int :: int(headerLength) <= k && k < i - 2 ==> b[k] == ufbyte("rtx", k + 2)
